@@ -1,0 +1,14 @@
+//go:build verif
+
+package sql
+
+// Contracts checked by /verif/gocv (comment-only file; see /verif/DESIGN.md §3).
+
+// C15 / C01. The SQL part store returns exactly what it was given, the empty part included (ghost scenario on the real
+// store over an in-memory part-content repository; bounded random search - the store streams chunks through loops over
+// readers, outside the modelled subset).
+//@ func verifSQLPartRoundTrip
+//@ property C01 C15
+//@ mode nosafety
+//@ bounded 1500
+//@ ensures[C15:sql-part-reads-back-exactly] result
